@@ -28,7 +28,7 @@ import elementpath.aliases as ta
 
 from elementpath.exceptions import ElementPathError
 from elementpath.tdop import MultiLabel
-from elementpath.helpers import Patterns, is_xml_codepoint, node_position
+from elementpath.helpers import Patterns, is_xml_codepoint, node_position, get_double
 from elementpath.namespaces import get_expanded_name, split_expanded_name, \
     XPATH_FUNCTIONS_NAMESPACE
 from elementpath.datatypes import NumericProxy, QName, Date, DateTime, Time, AnyURI
@@ -394,7 +394,8 @@ def evaluate__sqrt(self: XPathFunction, context: ta.ContextType = None) -> ta.On
     arg: ta.NumericType | None = self.get_argument(self.context or context, cls=NumericProxy)
     if arg is None:
         return []
-    elif arg < 0:
+    arg = get_double(arg)  # an integer can be beyond the range of xs:double
+    if arg < 0:
         return math.nan
     return math.sqrt(arg)
 
@@ -405,7 +406,8 @@ def evaluate__sin(self: XPathFunction, context: ta.ContextType = None) -> ta.One
     arg: ta.NumericType | None = self.get_argument(self.context or context, cls=NumericProxy)
     if arg is None:
         return []
-    elif math.isinf(arg):
+    arg = get_double(arg)  # an integer can be beyond the range of xs:double
+    if math.isinf(arg):
         return math.nan
     return math.sin(arg)
 
@@ -416,7 +418,8 @@ def evaluate__cos(self: XPathFunction, context: ta.ContextType = None) -> ta.One
     arg: ta.NumericType | None = self.get_argument(self.context or context, cls=NumericProxy)
     if arg is None:
         return []
-    elif math.isinf(arg):
+    arg = get_double(arg)  # an integer can be beyond the range of xs:double
+    if math.isinf(arg):
         return math.nan
     return math.cos(arg)
 
@@ -427,7 +430,8 @@ def evaluate__tan(self: XPathFunction, context: ta.ContextType = None) -> ta.One
     arg: ta.NumericType | None = self.get_argument(self.context or context, cls=NumericProxy)
     if arg is None:
         return []
-    elif math.isinf(arg):
+    arg = get_double(arg)  # an integer can be beyond the range of xs:double
+    if math.isinf(arg):
         return math.nan
     return math.tan(arg)
 
@@ -460,6 +464,7 @@ def evaluate__atan(self: XPathFunction, context: ta.ContextType = None) -> ta.On
     arg: ta.NumericType | None = self.get_argument(self.context or context, cls=NumericProxy)
     if arg is None:
         return []
+    arg = get_double(arg)  # an integer can be beyond the range of xs:double
     return math.atan(arg)
 
 
@@ -469,9 +474,9 @@ def evaluate__atan2(self: XPathFunction, context: ta.ContextType = None) -> ta.O
     if self.context is not None:
         context = self.context
 
-    x = self.get_argument(context, cls=NumericProxy)
+    x = self.get_argument(context, required=True, cls=NumericProxy)
     y = self.get_argument(context, index=1, required=True, cls=NumericProxy)
-    return math.atan2(x, y)
+    return math.atan2(get_double(x), get_double(y))
 
 
 ###
